@@ -69,10 +69,7 @@ int main(void)
 		::mpt::queue &q = xq->raw();
 		if ((!strcmp(op, "push") || !strcmp(op, "unshift")) && drv_nw == 3) {
 			if (drv_parse_data(drv_w[2], &dat, &dlen, &isnull) || isnull) { puts("bad-op"); free(dat); continue; }
-			size_t old = q.max;
-			/* storage added by realloc is cleared before the data lands in it: grow first, like the wrapper does */
-			mpt_queue_prepare(&q, dlen);
-			if (q.max > old) memset(((uint8_t *) q.base) + old, 0, q.max - old);
+			/* the wrapper grows the storage itself (prepare, then push) */
 			bool r = (*op == 'p') ? xq->push(dat, dlen) : xq->unshift(dat, dlen);
 			free(dat);
 			result(r ? "ok" : "refused", 0, 0, r ? "true" : "false");
@@ -87,11 +84,9 @@ int main(void)
 		}
 		else if (!strcmp(op, "write") && drv_nw == 4) {
 			/* xq write <part> <hex>: len = bytes/part elements */
-			if (drv_parse_nat(drv_w[2], &a) || !a || drv_parse_data(drv_w[3], &dat, &dlen, &isnull) || isnull || dlen % a) { puts("bad-op"); free(dat); continue; }
-			size_t old = q.max;
-			mpt_queue_prepare(&q, dlen);
-			if (q.max > old) memset(((uint8_t *) q.base) + old, 0, q.max - old);
-			ssize_t r = xq->write(dlen / a, dat, a);
+			/* data `zero:N` = null data pointer: N zero bytes in elements of <part> */
+			if (drv_parse_nat(drv_w[2], &a) || !a || drv_parse_data(drv_w[3], &dat, &dlen, &isnull) || dlen % a) { puts("bad-op"); free(dat); continue; }
+			ssize_t r = xq->write(dlen / a, isnull ? 0 : dat, a);
 			char buf[32];
 			snprintf(buf, sizeof(buf), "%zd", r);
 			free(dat);
@@ -100,15 +95,16 @@ int main(void)
 			snprintf(v, sizeof(v), "ok n=%zd", r);
 			result(v, 0, 0, buf);
 		}
-		else if (!strcmp(op, "read") && drv_nw == 4) {
-			/* xq read <len> <part> */
+		else if (!strcmp(op, "read") && (drv_nw == 4 || (drv_nw == 5 && !strcmp(drv_w[4], "nodst")))) {
+			/* xq read <len> <part> [nodst] */
 			if (drv_parse_nat(drv_w[2], &a) || drv_parse_nat(drv_w[3], &b) || !b || a > 4096 || b > 4096) { puts("bad-op"); continue; }
-			uint8_t *buf = (uint8_t *) malloc(a * b ? a * b : 1);
+			int nodst = drv_nw == 5;
+			uint8_t *buf = nodst ? 0 : (uint8_t *) malloc(a * b ? a * b : 1);
 			ssize_t r = xq->read(a, buf, b);
 			char v[48], i[32];
 			snprintf(v, sizeof(v), "ok n=%zd", r);
 			snprintf(i, sizeof(i), "%zd", r);
-			result(v, buf, r > 0 ? (size_t) r * b : 0, i);
+			result(v, buf, (r > 0 && buf) ? (size_t) r * b : 0, i);
 			free(buf);
 		}
 		else if (!strcmp(op, "peek") && drv_nw == 3) {
